@@ -20,7 +20,8 @@ CONSTANTS NLines,      \* abstract file length used for the meta-properties
           MaxEdits
 
 Inserting == {"blank", "comment"}
-Whole     == {"reindent", "crlf", "bom", "append", "rename"}
+\* narrow: every indentation halved (4 columns per level become 2) - the counterpart of reindent, which doubles it
+Whole     == {"reindent", "narrow", "crlf", "bom", "append", "rename"}
 Kinds     == Inserting \cup {"trailing"} \cup Whole
 \* abstract positions: fractions of the file (0 = before the first line, 3 = after the last line);
 \* 4 = "sweep": a family of single edits, one per line boundary of the file - for `trailing`, one per line - (the
